@@ -43,7 +43,7 @@ def run(S):
     # generated families (construct x spelling x context x comment position, ~4000 well-formed documents): a sample that depends on VERIF_SEED in the
     # quick tier, all of them in the thorough tier
     from . import reparse as _rpf
-    _fam = _rpf.families(S, seed=S.seed, limit=300 if S.tier == 'quick' else None)
+    _fam = _rpf.families(S, seed=S.seed, limit=600 if S.tier == 'quick' else None)
     if 'C02' == 'C09':
         _fam = [d_ for d_ in _fam if '$' in d_]
     _ff, _covf = _rpf.explore(S, _fam, tabs=(2,), widths=(0, 1 << 30) if S.tier == 'quick' else (0, 20, 40, 80, 1 << 30), prop='C02')
